@@ -129,10 +129,21 @@ def build_mod(args: BuilderArgs) -> exp.Mod:
     expression = seq_get(args, 1)
 
     # Wrap the operands if they are binary nodes, e.g. MOD(a + 1, 7) -> (a + 1) % 7
-    this = exp.Paren(this=this) if isinstance(this, exp.Binary) else this
-    expression = exp.Paren(this=expression) if isinstance(expression, exp.Binary) else expression
+    # NOT binds looser than %, e.g. MOD(NOT a, 7) -> (NOT a) % 7
+    this = exp.Paren(this=this) if isinstance(this, (exp.Binary, exp.Not)) else this
+    expression = (
+        exp.Paren(this=expression) if isinstance(expression, (exp.Binary, exp.Not)) else expression
+    )
 
     return exp.Mod(this=this, expression=expression)
+
+
+def _wrap_operator_call(this: exp.Expr | None) -> exp.Expr | None:
+    # Apart from dotted paths, the operand of a unary operator is a binary node only when a function
+    # call was parsed into an operator, e.g. -MOD(a, b): keep it grouped, "-a % b" would re-parse as (-a) % b
+    if isinstance(this, exp.Binary) and not isinstance(this, (exp.Func, exp.Dot)):
+        return exp.Paren(this=this)
+    return this
 
 
 def build_pad(args: BuilderArgs, is_left: bool = True):
@@ -1189,8 +1200,12 @@ class Parser:
     UNARY_PARSERS: t.ClassVar = {
         TokenType.PLUS: lambda self: self._parse_unary(),  # Unary + is handled as a no-op
         TokenType.NOT: lambda self: self.expression(exp.Not(this=self._parse_equality())),
-        TokenType.TILDE: lambda self: self.expression(exp.BitwiseNot(this=self._parse_unary())),
-        TokenType.DASH: lambda self: self.expression(exp.Neg(this=self._parse_unary())),
+        TokenType.TILDE: lambda self: self.expression(
+            exp.BitwiseNot(this=_wrap_operator_call(self._parse_unary()))
+        ),
+        TokenType.DASH: lambda self: self.expression(
+            exp.Neg(this=_wrap_operator_call(self._parse_unary()))
+        ),
         TokenType.PIPE_SLASH: lambda self: self.expression(exp.Sqrt(this=self._parse_unary())),
         TokenType.DPIPE_SLASH: lambda self: self.expression(exp.Cbrt(this=self._parse_unary())),
     }
